@@ -40,7 +40,7 @@ def _time_cases(chk, kmax):
 
 def _oracle_net(chk, r, a, head):
     cid = pitcheck.case_id(r, a)
-    unsup = pitcheck.unsupported_key(head, r) if head.get('sup') == '0' else None
+    unsup = pitcheck.unsupported_key(head, r) if (head.get('sup') == '0' or (head.get('sup') is None and r['spec']['opts'].get('unsupported'))) else None
     if unsup == 'add-with-concat-operand':
         key = 'C01:add-with-concat-operand'
     elif unsup:
